@@ -630,6 +630,44 @@ def mutableDefaults : List (String × String × String) :=
 def classAttrWrites : List (String × String × String) :=
   [("utils/pickle.py", "_get_RestrictedUnpicklerClass.RestrictedUnpickler.find_class", "RestrictedUnpickler.count")]
 
+/-- containers that `__init__` of the per-run classes creates anew for every run (ParseContext, Interpreter, Globals, …):
+    none of them may move to the class body (it would become a process cell): (file, class, attribute) -/
+def perRunContainers : List (String × String × String) :=
+  [("data_generator_runtime.py", "Globals", "persistent_nicknames"),
+   ("data_generator_runtime.py", "Globals", "persistent_objects_by_table"),
+   ("data_generator_runtime.py", "IdManager", "start_ids"),
+   ("data_generator_runtime.py", "Interpreter", "faker_template_libraries"),
+   ("data_generator_runtime.py", "Interpreter", "instance_states"),
+   ("data_generator_runtime.py", "Interpreter", "plugin_function_libraries"),
+   ("data_generator_runtime.py", "Interpreter", "plugin_instances"),
+   ("data_generator_runtime.py", "Interpreter", "standard_funcs"),
+   ("data_generator_runtime.py", "JinjaTemplateEvaluatorFactory", "compilers"),
+   ("data_generator_runtime.py", "RuntimeContext", "local_vars"),
+   ("data_generator_runtime.py", "Transients", "last_seen_obj_by_table"),
+   ("data_generator_runtime.py", "Transients", "named_slots"),
+   ("data_generator_runtime.py", "Transients", "nicknamed_objects"),
+   ("parse_recipe_yaml.py", "ParseContext", "files_being_parsed"),
+   ("parse_recipe_yaml.py", "ParseContext", "line_numbers"),
+   ("parse_recipe_yaml.py", "ParseContext", "macros"),
+   ("parse_recipe_yaml.py", "ParseContext", "macros_being_expanded"),
+   ("parse_recipe_yaml.py", "ParseContext", "options"),
+   ("parse_recipe_yaml.py", "ParseContext", "parser_macros_plugins"),
+   ("parse_recipe_yaml.py", "ParseContext", "plugins"),
+   ("parse_recipe_yaml.py", "ParseContext", "random_references"),
+   ("parse_recipe_yaml.py", "ParseContext", "table_infos"),
+   ("parse_recipe_yaml.py", "ParseResult", "templates"),
+   ("parse_recipe_yaml.py", "TableInfo", "_templates"),
+   ("parse_recipe_yaml.py", "TableInfo", "fields"),
+   ("parse_recipe_yaml.py", "TableInfo", "friends"),
+   ("row_history.py", "RowHistory", "nickname_to_tablename"),
+   ("standard_plugins/datasets.py", "DatasetBase", "datasets")]
+
+/-- the two run-time stacks (cycle detection of include files and of macros): per-run lists, every push is protected
+    by a `try … finally: pop()` that starts immediately after it — restored on every path including failure -/
+def stackDiscipline : List (String × String × String × String) :=
+  [("parse_recipe_yaml.py", "include_macro", "context.macros_being_expanded", "pop in finally, try follows the push"),
+   ("parse_recipe_yaml.py", "parse_included_file", "context.files_being_parsed", "pop in finally, try follows the push")]
+
 /-- what an in-function call into another module does to process-global state -/
 inductive SettingClass where
   | io            -- writes to a console / file handed in by the caller; no setting
